@@ -28,7 +28,7 @@ var defaultPure = []string{
 	"(net.HardwareAddr).String", "(*net.IPNet).String", "(*net.IPNet).Contains", "(*net.UDPAddr).String", "(*net.UDPAddr).Network",
 	"(time.Duration).String", "(time.Duration).Seconds", "(time.Duration).Round", "(time.Duration).Truncate", "(time.Time).String", "(time.Time).Unix", "(time.Time).Sub", "(time.Time).Add", "time.Unix", "time.Since", "(time.Time).UTC", "(time.Time).Before", "(time.Time).After",
 	"sort.SearchInts", "reflect.TypeOf", "reflect.DeepEqual", "(reflect.Type).String", "(*reflect.rtype).String",
-	"errors.Is", "errors.As", "errors.Unwrap", "error.Error", "fmt.Stringer.String",
+	"time.Date", "time.Now", "(time.Duration).Nanoseconds", "(time.Duration).Milliseconds", "net.InterfaceByName", "(*net.Interface).Addrs", "net.Interfaces", "errors.Is", "errors.As", "errors.Unwrap", "error.Error", "fmt.Stringer.String",
 	"(*strings.Builder).String", "(*strings.Builder).Len",
 	"(*log.Logger).Printf", "(*log.Logger).Print", "(*log.Logger).Println", "log.Printf", "log.Print", "log.Println",
 	"(*regexp.Regexp).FindStringSubmatch", "(*regexp.Regexp).MatchString", "(*regexp.Regexp).SubexpNames", "(*regexp.Regexp).FindAllStringSubmatch",
@@ -37,6 +37,7 @@ var defaultPure = []string{
 	"(uuid.UUID).String",
 	// interface methods of the library whose implementations are all read-only: assumed here, and each implementation
 	// is checked against "modifies nothing" by the C20 sweep
+	"dhcpv6.longStringer.LongString", "(*bytes.Buffer).String", "(*bytes.Buffer).Len", "(*bytes.Buffer).WriteString", "(*bytes.Buffer).Write", "(*bytes.Buffer).WriteByte",
 	"dhcpv6.Option.Code", "dhcpv6.Option.ToBytes", "dhcpv6.Option.String", "dhcpv6.Option.LongString",
 	"dhcpv6.DUID.ToBytes", "dhcpv6.DUID.String", "dhcpv6.DUID.Equal", "dhcpv6.DUID.DUIDType",
 	"dhcpv4.OptionValue.ToBytes", "dhcpv4.OptionValue.String", "dhcpv4.OptionCode.Code", "dhcpv4.OptionCode.String",
@@ -91,6 +92,43 @@ func init() {
 		return true
 	}
 	externWrites["net.PacketConn.ReadFrom"] = []string{"I"}
+	builderWrite := func(a *Act, res ssa.Value, instr ssa.Instruction, args []string, st *State, reach string) bool {
+		g := a.g
+		// (*strings.Builder).WriteString/WriteByte/Write/WriteRune: modifies the builder object only (assumed)
+		a.safety("nil-deref", instr, reach, fmt.Sprintf("(not (= (pref %s) 0))", args[0]), "method call on nil *strings.Builder")
+		a.frameOblige(instr, reach, fmt.Sprintf("(pref %s)", args[0]), "strings.Builder write")
+		for _, k := range []string{"I", "L", "P"} {
+			row := g.havoc(a.nm("sb_row"+k), fmt.Sprintf("(Array Int %s)", heapElemSort[k]))
+			st.H[k] = g.def("H"+k, heapSort[k], fmt.Sprintf("(store %s (pref %s) %s)", st.H[k], args[0], row))
+		}
+		if res != nil {
+			a.havocValue(res, reach, st)
+		}
+		return true
+	}
+	// sort.Slice(x, less): permutes the elements of the slice held by x in place (assumed); less is assumed read-only
+	externs["sort.Slice"] = func(a *Act, res ssa.Value, instr ssa.Instruction, args []string, st *State, reach string) bool {
+		g := a.g
+		s := fmt.Sprintf("(ubSlice (ibox %s))", args[0])
+		g.assumeIf(reach, fmt.Sprintf("(is-bSlice (ibox %s))", args[0]))
+		cond := fmt.Sprintf("(or (<= (sllen %s) 1) (= (sref %s) 0) (>= (sref %s) %s))", s, s, s, g.entry.Next)
+		if g.modset != nil {
+			cond = fmt.Sprintf("(or (<= (sllen %s) 1) (= (sref %s) 0) (>= (sref %s) %s) %s)", s, s, s, g.entry.Next, g.modset(fmt.Sprintf("(sref %s)", s)))
+		}
+		if g.checkFrame {
+			g.oblige("frame", a.srcDetail(instr), reach, cond, a.pos(instr.Pos()), "sort.Slice reorders its argument in place: it must be memory allocated during the call or listed in modifies")
+		}
+		for _, k := range []string{"I", "B", "Q", "L", "P", "F", "R"} {
+			row := g.havoc(a.nm("sorted_row"+k), fmt.Sprintf("(Array Int %s)", heapElemSort[k]))
+			st.H[k] = g.def("H"+k, heapSort[k], fmt.Sprintf("(store %s (sref %s) %s)", st.H[k], s, row))
+		}
+		return true
+	}
+	externWrites["sort.Slice"] = []string{"I", "B", "Q", "L", "P", "F", "R"}
+	for _, m := range []string{"WriteString", "WriteByte", "Write", "WriteRune", "Grow", "Reset"} {
+		externs["(*strings.Builder)."+m] = builderWrite
+		externWrites["(*strings.Builder)."+m] = []string{"I", "L", "P"}
+	}
 }
 
 // ghostCall handles calls to ghost helpers declared in the verif files: verifAssert(b), verifAssume is NOT provided.
